@@ -134,7 +134,12 @@ func (r *Report) HookChain(key string) bool {
 func (w *World) delegationHookRoots() []*ssa.Function {
 	var out []*ssa.Function
 	for _, k := range sortedKeys(w.Funcs) {
-		for _, m := range []string{".BeforeDelegationSharesModified", ".BeforeDelegationRemoved", ".AfterDelegationModified"} {
+		// every StakingHooks method: the delegation hooks run inside begin-block slashing, the validator hooks inside the
+		// staking end-blocker (bonding / unbonding / removal) and the slashing begin-blocker; an error from any of them
+		// fails the block
+		for _, m := range []string{".BeforeDelegationSharesModified", ".BeforeDelegationRemoved", ".AfterDelegationModified",
+			".BeforeDelegationCreated", ".AfterValidatorCreated", ".BeforeValidatorModified", ".AfterValidatorRemoved",
+			".AfterValidatorBonded", ".AfterValidatorBeginUnbonding", ".BeforeValidatorSlashed", ".AfterUnbondingInitiated"} {
 			if strings.HasSuffix(k, "Hooks"+m) && inRepoScope(w.Funcs[k]) {
 				out = append(out, w.Funcs[k])
 			}
